@@ -215,6 +215,7 @@ def guard_rules(repo, rep):
                            'the band the projection is specified on')
     if n < 3:
         rep.undecided('R-GUARD', 'R-GUARD::geodepy/convert.py::geo2grid::tests', where(f, f.node), 'fewer than three raising input tests were met (%d)' % n)
+    common.isg_zone_rule(repo, rep, 'geo2grid', ps[2], True, {ps[0]: Rat.sym('lat'), ps[1]: Rat.sym('lon')})
 
 
 def units_rules(repo, rep):
